@@ -131,6 +131,10 @@ def run_variant(v):
             out['results'][pid] = dict(violations=[dict(construct=i['construct'], loc=i['loc'], detail=i['detail'][:200]) for i in viol[:5]], n=len(viol))
             if viol:
                 fired_any = True
+            elif run.undecided():
+                # an undecided obligation ends the check inconclusive (exit 2), like a lost anchor
+                u = run.undecided()[0]
+                raise AnalysisError(f'undecided obligation {u["rule"]} {u["instance"]}: {u["detail"]}')
         except AnalysisError as e:
             viol = [i for i in run.items if i['status'] == 'violation']
             out['results'][pid] = dict(analysis_error=str(e), n=len(viol),
